@@ -90,9 +90,10 @@ def run(ctx):
         ctx.cap("python3-vt (numpy) not available: no ISA emulated")
     else:
         runpy = os.path.join(common.VERIF, "emu", "run.py")
+        refperm = build.build_prog("refperm_cli", ["ref/refperm_cli.c", "ref/ref.c"], cc="gcc", opt="-O2")
 
         def emu_one(isa):
-            rc, out, err = common.run_harness(ctx, py, [runpy, isa, 1 if t else 0], label="", timeout=max(60, ctx.remaining()))
+            rc, out, err = common.run_harness(ctx, py, [runpy, isa, 1 if t else 0], label="", timeout=max(60, ctx.remaining()), env={"EMU_REFPERM": refperm})
             if rc == 0:
                 ctx.stat("emulated_isas")
             else:
